@@ -97,3 +97,15 @@ pub trait Property: Sync {
     /// Pure function of the scenario (and of the /repo build).
     fn exec(&self, sc: &Self::Scenario, opts: &Opts) -> RunOut;
 }
+
+/// Thorough tier: the generators draw longer histories and the rare wide-bounds classes more often.
+/// Set once at start-up (from the tier argument, or from a replay file's `tier` field), read by the
+/// generators; it is part of what a tape means, so replay files record the tier.
+static DEEP: std::sync::atomic::AtomicBool = std::sync::atomic::AtomicBool::new(false);
+
+pub fn set_deep(v: bool) {
+    DEEP.store(v, std::sync::atomic::Ordering::Relaxed);
+}
+pub fn deep() -> bool {
+    DEEP.load(std::sync::atomic::Ordering::Relaxed)
+}
